@@ -156,7 +156,7 @@ _G_BY_FAM = {
     'O': ['ident', 'str', 'const'],
     'Ox': ['str', 'const'],
 }
-_INJECTIVE = {'b': ['ident', 'not'], 'i': ['ident'], 'f': ['ident', 'neg'], 'U': ['ident'], 'S': ['ident'], 'M': ['ident'],
+_INJECTIVE = {'b': ['ident', 'not'], 'i': ['ident', 'neg', 'neg'], 'f': ['ident', 'neg'], 'U': ['ident'], 'S': ['ident'], 'M': ['ident'],
               'Mx': ['ident'], 'm': ['ident'], 'O': ['ident'], 'Ox': ['str'], 'c': ['ident']}
 
 
@@ -345,7 +345,8 @@ def _gen_keyfn(rng, fams, ctxkind, p_none=0.5, n=1):
     if ctxkind in ('flat', 'hier'):
         packs = (['array'] * 9 + ['array_n1']) if len(src) == 1 else ['array']
         if ctxkind == 'flat':
-            packs += ['index', 'hier'] if n else ['index']
+            # (a key function may return an Index as well as an array: a third of the flat cases)
+            packs += ['index', 'index', 'index', 'index', 'hier'] if n else ['index']
     elif ctxkind == 'series':
         packs = ['array', 'series']
     elif ctxkind == 'frame1':
